@@ -12,29 +12,6 @@ Import ListNotations.
 Open Scope N_scope.
 Open Scope bool_scope.
 
-(* ---------------------------------------------------------------- hypotheses of the theorems *)
-(* a hard-link entry names an earlier regular entry of the same listing with the same bytes *)
-Definition links_ok (B : list entry) : Prop :=
-  forall sb bb, In (sb, bb) B -> is_hardlink sb = true ->
-  exists st bt, In (st, bt) B /\ st_path st = st_linkname sb /\
-                compare_path (st_path st) (st_path sb) = Lt /\ is_reg st = true /\ bt = bb.
-
-(* same identity key => same bytes (regular files and hard links) *)
-Definition identity_faithful (d : differ) (A B : list entry) : Prop :=
-  forall sa ba sb bb, In (sa, ba) A -> In (sb, bb) B -> st_path sa = st_path sb ->
-  same_file d sa sb = true -> is_reg sb = true -> ba = bb.
-
-(* executable forms, for the satisfiability examples *)
-Definition links_ok_b (B : list entry) : bool :=
-  forallb (fun e => negb (is_hardlink (fst e)) ||
-     existsb (fun t => bytes_eqb (st_path (fst t)) (st_linkname (fst e))
-                       && path_ltb (st_path (fst t)) (st_path (fst e))
-                       && is_reg (fst t) && bytes_eqb (snd t) (snd e)) B) B.
-Definition identity_faithful_b (d : differ) (A B : list entry) : bool :=
-  forallb (fun ea => forallb (fun eb =>
-     negb (bytes_eqb (st_path (fst ea)) (st_path (fst eb))) || negb (same_file d (fst ea) (fst eb))
-     || negb (is_reg (fst eb)) || bytes_eqb (snd ea) (snd eb)) B) A.
-
 Lemma links_ok_b_sound B : links_ok_b B = true -> links_ok B.
 Proof.
   unfold links_ok_b, links_ok. rewrite forallb_forall. intros H sb bb Hin Hl.
@@ -51,16 +28,6 @@ Proof.
   specialize (H _ Hb). simpl in H. rewrite Ep, bytes_eqb_refl, Hs, Hr in H. simpl in H.
   apply bytes_eqb_eq; auto.
 Qed.
-
-(* what "the destination shows the source's entry" means: same identity key, and the same
-   bytes for a regular file / hard link *)
-Definition view_equiv (o : option dentry) (e : option entry) : Prop :=
-  match o, e with
-  | None, None => True
-  | Some x, Some (sb, bb) =>
-      same_file DMetadata (de_stat x) sb = true /\ (is_reg sb = true -> de_bytes x = bb)
-  | _, _ => False
-  end.
 
 Lemma lt_le_trans p x y :
   compare_path p x = Lt -> compare_path y x <> Lt -> compare_path p y = Lt.
@@ -165,8 +132,7 @@ Proof. intros H (y & Hy & Hc). apply Hc, H, Hy. Qed.
 Definition hidden_done (R : list stat) (p : bytes) : Prop :=
   exists q, removed_root q /\ above (st_path q) p = true /\ done R (st_path q).
 
-Definition unchanged (p : bytes) : Prop :=
-  exists a b, In a LA /\ In b LB /\ st_path a = p /\ st_path b = p /\ same_file d a b = true.
+Notation unchanged := (AbsDest.unchanged d A B).
 
 Record dinv (D : dmap) (R : list stat) : Prop := {
   dv_M : forall p, In p (paths LA) \/ In p (paths LB) -> In p (paths R) \/ done R p;
@@ -673,3 +639,120 @@ Proof.
 Qed.
 
 End Reqs.
+
+(* ---------------------------------------------------------------- requests, notifications *)
+Section Top2.
+Variable H : bytes -> bytes.
+Variable hdr : stat -> bytes.
+Variable d : differ.
+Variables A B : list entry.
+Notation LA := (map fst A).
+Notation LB := (map fst B).
+Notation idf := (fun s : stat => s).
+Notation notif_of := (notif_of (src_of B) H hdr).
+
+(* requests and notifications are functions of the changes handed to the writer *)
+Lemma receive_abs_proj m :
+  let r := receive_abs H hdr m d A B in
+  ds_reqs r = filter_map req_of (ds_changes r) /\ ds_notifs r = map notif_of (ds_changes r).
+Proof.
+  cbv zeta.
+  destruct (apply_all (src_of B) (diff idf d (match m with Fresh => LA | Merge => [] end) LB)
+              (dest_of A) (N.of_nat (length A))) as [[[D n] dn] e] eqn:E.
+  rewrite (receive_abs_unfold H hdr d A B m D n dn e E). simpl. auto.
+Qed.
+
+Definition notif_path (n : notif) : bytes := snd (fst n).
+
+Lemma notif_of_path c : notif_path (notif_of c) = ch_path c.
+Proof. destruct c as [[k p] [st|]]; destruct k; reflexivity. Qed.
+
+Hypothesis HwA : wf_listing LA.
+Hypothesis HwB : wf_listing LB.
+Hypothesis Hlinks : links_ok B.
+Hypothesis Hfaith : identity_faithful d A B.
+
+Notation r := (receive_abs H hdr Fresh d A B).
+
+Theorem reqs_exact_proof : ds_reqs r = reqs_spec d LA LB.
+Proof.
+  destruct (receive_abs_proj Fresh) as [E1 _]. rewrite E1.
+  destruct (receive_fresh_proof H hdr d A B HwA HwB Hlinks Hfaith) as (_ & -> & _).
+  destruct HwA as [HsA HcA]. destruct HwB as [HsB HcB].
+  apply (run_reqs d LA LB HsA LA LB). apply diff_run; auto.
+Qed.
+
+Theorem notify_exact_proof :
+  ds_err r = false /\
+  ds_notifs r = map notif_of (diff idf d LA LB) /\
+  (forall n, In n (ds_notifs r) <-> exists c, spec_change idf d LA LB c /\ n = notif_of c) /\
+  NoDup (map notif_path (ds_notifs r)).
+Proof.
+  destruct (receive_abs_proj Fresh) as [_ E2].
+  destruct (receive_fresh_proof H hdr d A B HwA HwB Hlinks Hfaith) as (He & Ec & _).
+  rewrite Ec in E2. destruct HwA as [HsA HcA]. destruct HwB as [HsB HcB].
+  split; auto. split; auto. rewrite E2. split.
+  - intros n. rewrite in_map_iff. split.
+    + intros (c & <- & Hc). exists c. split; auto. apply (diff_changes_exact_proof idf d LA LB); auto.
+    + intros (c & Hc & ->). exists c. split; auto. apply (diff_changes_exact_proof idf d LA LB); auto.
+  - rewrite map_map. rewrite (map_ext _ ch_path notif_of_path). apply diff_nodup_proof; auto.
+Qed.
+
+(* the digest announced for a path is the hash of the header of the stat as sent followed by
+   the bytes that the destination finally holds there (header only when no content is sent) *)
+Theorem notify_digest_proof k p st dg :
+  In (k, p, Some (st, dg)) (ds_notifs r) ->
+  exists e, alookup p (ds_map r) = Some e /\
+            dg = H (hdr st ++ (if wants_content st then de_bytes e else [])).
+Proof.
+  intros Hin. destruct notify_exact_proof as (_ & _ & Hex & _). apply Hex in Hin.
+  destruct Hin as (c & Hc & En).
+  destruct (receive_fresh_proof H hdr d A B HwA HwB Hlinks Hfaith) as (_ & _ & Hview & _).
+  destruct HwB as [HsB HcB].
+  assert (Hb : forall k', c = (k', p, Some st) -> In st LB -> st_path st = p ->
+            dg = AbsDest.digest H hdr st (src_of B p) ->
+            exists e, alookup p (ds_map r) = Some e /\ dg = H (hdr st ++ (if wants_content st then de_bytes e else []))).
+  { intros k' _ Hst Ep Edg. specialize (Hview p). destruct (B_efind B HsB st Hst) as (bb & HinB & Ef).
+    rewrite <- Ep in Hview at 2. rewrite Ef in Hview.
+    destruct (alookup p (ds_map r)) as [e|]; [|destruct Hview]. destruct Hview as [_ Hbytes].
+    exists e. split; auto. rewrite Edg. unfold AbsDest.digest. destruct (wants_content st) eqn:Ew; auto.
+    rewrite Hbytes.
+    - rewrite <- Ep. rewrite (src_at B HsB st bb HinB). reflexivity.
+    - unfold wants_content in Ew. apply andb_true_iff in Ew. tauto. }
+  destruct c as [[kc pc] [sc|]]; destruct kc; simpl in Hc, En; try tauto; inversion En; subst.
+  - destruct Hc as (Hst & Ep & _). eapply Hb; eauto.
+  - destruct Hc as (Hst & Ep & _). eapply Hb; eauto.
+Qed.
+
+End Top2.
+
+(* a re-sync of an unchanged source: nothing requested, nothing notified, nothing touched
+   (no hypothesis on the listings beyond being identity-equal entry by entry) *)
+Theorem receive_resync_noop_proof H hdr A B :
+  Forall2 (fun a b => st_path (fst a) = st_path (fst b) /\ same_file DMetadata (fst a) (fst b) = true) A B ->
+  receive_abs H hdr Fresh DMetadata A B =
+  {| ds_map := dest_of A; ds_reqs := []; ds_notifs := []; ds_changes := []; ds_err := false |}.
+Proof.
+  intros HF. unfold receive_abs.
+  rewrite (resync_noop_gen (fun s => s) DMetadata (map fst A) (map fst B)); [reflexivity|].
+  induction HF; simpl; constructor; auto.
+Qed.
+
+(* an unchanged path is not requested; with differencing disabled every regular file is *)
+Lemma reqs_spec_unchanged d LA LB p :
+  sorted LA -> sorted LB ->
+  (exists a b, In a LA /\ In b LB /\ st_path a = p /\ st_path b = p /\ same_file d a b = true) ->
+  ~ In p (reqs_spec d LA LB).
+Proof.
+  intros HsA HsB (a & b & Ha & Hb & Ea & Eb & Hs) Hin. unfold reqs_spec in Hin.
+  apply in_map_iff in Hin. destruct Hin as (b' & Ep & Hf). apply filter_In in Hf. destruct Hf as [Hb' Hc].
+  assert (b' = b) by (apply (sorted_unique LB); auto; congruence). subst b'.
+  apply andb_true_iff in Hc. destruct Hc as [_ Hc]. apply negb_true_iff in Hc.
+  unfold unchanged_b in Hc. rewrite Eb, <- Ea, (lookup_in_sorted LA a HsA Ha) in Hc. congruence.
+Qed.
+
+Lemma reqs_spec_none LA LB : reqs_spec DNone LA LB = map st_path (filter wants_content LB).
+Proof.
+  unfold reqs_spec. f_equal. apply filter_ext. intros b. unfold unchanged_b.
+  destruct (lookup (st_path b) LA); simpl; rewrite andb_true_r; reflexivity.
+Qed.
